@@ -37,7 +37,7 @@ CQuick == {0, 1, 77, 128, 254, 255}
 CThorough == {0, 1, 2, 33, 64, 77, 100, 127, 128, 129, 200, 253, 254, 255}
 
 CfgOfAlg(a, lim) ==
-  [kind |-> "hwmon", neverStop |-> TRUE, hasRpm |-> FALSE, hasPwm |-> TRUE, hasMode |-> TRUE,
+  [kind |-> "hwmon", neverStop |-> TRUE, hasRpm |-> FALSE, hasPwm |-> TRUE, hasMode |-> TRUE, modeStuck |-> FALSE,
    gmin |-> lim[1], mx |-> lim[2], map |-> Identity, keys |-> 0..P, wf |-> Identity,
    ws |-> [r \in 0..P |-> {r}], n |-> 10, alg |-> a]
 
